@@ -97,6 +97,7 @@ def exhaustive_cases(kmax, variants, start_id):
 
 class C09(flow.Spec):
     pid = "C09"
+    case_timeout = 900
     harness = dict(name="c09", sources=["c09.cpp"])
     nontrivial_rule = ("a case = one tree (class, comparator, k in 1..17, per-player key sequences, sentinel) with "
                        "init and replace-the-winner until nothing is left; non-trivial when k >= 3, at least 3 "
